@@ -22,13 +22,14 @@ def rand_model(rng):
     n = rng.randint(1, 6)
     ns = rng.randint(1, 5)
     r = np.random.default_rng(rng.randrange(2 ** 32))
-    S = r.normal(size=(ns, n, n)) + 1j * r.normal(size=(ns, n, n))
+    # a third of the models have more matrix ports than named pins (partially mapped solver, user model naming a subset)
+    nfull = n + (rng.randint(1, 3) if rng.random() < 0.33 else 0)
+    S = r.normal(size=(ns, nfull, nfull)) + 1j * r.normal(size=(ns, nfull, nfull))
     S[r.random(size=S.shape) < 0.15] = 0
     pins = []
     for k in range(n):
         pins.append(L.Pin(f"p{k}", rng.choice([None, None, "TE", "TM"])))
-    idx = list(range(n))
-    rng.shuffle(idx)
+    idx = rng.sample(range(nfull), n)
     pin_dic = {p: i for p, i in zip(pins, idx)}
     params = {"wl": np.linspace(1.5, 1.6, ns) if rng.random() < 0.7 else np.array([1.55])}
     if rng.random() < 0.5:
@@ -54,7 +55,7 @@ def check(ctx, rng, i):
 
 def run_case(ctx, m, S, pins, idx, params, exc, rep):
     n, ns = len(pins), S.shape[0]
-    u = np.zeros(n, complex)
+    u = np.zeros(S.shape[-1], complex)
     for p, k in zip(pins, idx):
         u[k] = exc.get(p.name, 0.0)
     try:
